@@ -714,7 +714,9 @@ def _ps_delete(sx, args, kwargs, st, node):
               z3.If(kind == 5, frame8, z3.And(repl, frame9)), "typestate", node)
     sx.oblige(st, "%s/delete:inside-the-write-transaction" % sx.cur_func, st.ghost["wtxn_open"].term, "typestate", node, props=["C07"])
     st.ghost["delete_calls"] = Val(V.Int, st.ghost["delete_calls"].term + 1)
-    return [R(st, NONE), R(st.fork(), None, Exc("EngineError", exact=False))]
+    failed = st.fork()
+    failed.ghost["kv_failed"] = V.mk_bool(True)     # C07/C10: a failed deletion must abort the write transaction, not be swallowed
+    return [R(st, NONE), R(failed, None, Exc("EngineError", exact=False))]
 
 
 def setup_post_save(sx, st, params):
@@ -723,6 +725,7 @@ def setup_post_save(sx, st, params):
     t = V.Dict(V.Str, V.Int)
     st.env["counter"] = Ref(t, st.alloc(Val(t, t.put(t.empty(), z3.StringVal("count"), z3.IntVal(0)))))
     st.ghost["delete_calls"] = V.mk_int(0)
+    st.ghost["kv_failed"] = V.mk_bool(False)
     st.ghost["op_event"] = params["event"]
     st.getcell(params["self"].cell)["_delete_event"] = Func(_ps_delete, "_delete_event")
 
@@ -733,21 +736,24 @@ post_save_kv = REG.unit(Unit(
              requires=[("inside-write-transaction", "ghost('wtxn_open')"),
                        ("event-is-canonical", "fromhex_ok(event.id) and fromhex_ok(event.pubkey) and all_range(0, len(event.tags), lambda i: len(event.tags[i]) >= 1)")],
              ensures=[("regular-events-delete-nothing",
-                       "implies(not (event.kind == 0 or event.kind == 3 or event.kind == 5 or event.is_replaceable or event.is_paramaterized_replaceable), ghost('delete_calls') == 0)")],
+                       "implies(not (event.kind == 0 or event.kind == 3 or event.kind == 5 or event.is_replaceable or event.is_paramaterized_replaceable), ghost('delete_calls') == 0)"),
+                      # a deletion that failed part-way leaves index entries without their record (C10) and a half-applied event (C07):
+                      # the failure has to escape so that the writer aborts the whole transaction
+                      ("no-failed-deletion-swallowed", "not ghost('kv_failed')")],
              raises={"EngineError+": True, "ValueError": True, "OverflowError": True, "IndexError": True}),
     loops={},
-    props=["C09", "C08", "C07"], ghost_init=ghost_writer, setup=setup_post_save,
+    props=["C09", "C08", "C07", "C10"], ghost_init=ghost_writer, setup=setup_post_save,
     canaries=[("never-deletes", "ghost('delete_calls') == 0")],
 ))
 REG.frames["_delete_event"] = []   # touches only the keyspace ghost, no python object
 post_save_kv.loops = {
-    1: LoopSpec("superseded", index="_a", invariants=[("counter", "'count' in counter")]),
-    2: LoopSpec("deleted", index="_b", invariants=[("counter", "'count' in counter")]),
+    1: LoopSpec("superseded", index="_a", invariants=[("counter", "'count' in counter"), ("no-failure-swallowed", "not ghost('kv_failed')")]),
+    2: LoopSpec("deleted", index="_b", invariants=[("counter", "'count' in counter"), ("no-failure-swallowed", "not ghost('kv_failed')")]),
 }
 post_save_kv.param_defaults = {"txn": lambda sx, st: Conc(Txn(True)), "log": lambda sx, st: LOGGER,
                                "counter": lambda sx, st: st.env.get("counter")}
-post_save_kv.ghost_havoc = lambda sx, body, st: [st.ghost.__setitem__(g, sx.fresh(st.ghost[g].ty, "g_" + g, st)) for g in ("delete_calls",)]
-post_save_kv.obligation_props = [("delete:inside", ["C07"]), ("delete:only", ["C09", "C08"])]
+post_save_kv.ghost_havoc = lambda sx, body, st: [st.ghost.__setitem__(g, sx.fresh(st.ghost[g].ty, "g_" + g, st)) for g in ("delete_calls", "kv_failed")]
+post_save_kv.obligation_props = [("delete:inside", ["C07"]), ("delete:only", ["C09", "C08"]), ("no-failed-deletion-swallowed", ["C07", "C10"]), ("no-failure-swallowed", ["C07", "C10"])]
 
 
 # ---------------------------------------------------------------------------------------------------- execute_one_plan (C12)
